@@ -1902,9 +1902,100 @@ def r4_registry_copies(ctx, rid):
                      f"{sorted({f'{k.name}.{a}' for (k, a) in fl.attr_taint})}")
 
 
+
+def r5_template_compile_state_rebound(ctx, rid):
+    """Per-compilation *instance* state of a template (the relabelling maps _vectorization_labels / _vectorization_indices that
+    apply() fills) must be re-bound to freshly built containers by every compilation before anything reads or extends it:
+    CircuitTemplate.clear() does not touch these maps, so a compilation that merely merges into them inherits the node
+    grouping of the previous compilation of the same template object (edges and outputs re-wired to the earlier grouping)."""
+    import ast as _ast
+    from engine.effects import analyse as _analyse
+    from engine.util import call_name as _cn
+    from engine.cfg import stmt_of as _stmt_of
+    f_apply = ctx.repo.get_func(CIRCUIT_T, "CircuitTemplate.apply")
+    cls = f_apply.cls
+    init = cls.methods.get("__init__")
+    if init is None:
+        raise AnalysisError(f"{rid}: CircuitTemplate.__init__ vanished")
+    # candidate attributes: initialised to an empty container in __init__, mutated somewhere under apply, not reset by clear()
+    eff = ctx.effects
+    inits = {}
+    for st in walk_shallow(init.node):
+        if isinstance(st, _ast.Assign) and len(st.targets) == 1 and isinstance(st.targets[0], _ast.Attribute) \
+                and isinstance(st.targets[0].value, _ast.Name) and st.targets[0].value.id == init.self_name \
+                and isinstance(st.value, (_ast.Dict, _ast.List)) and not getattr(st.value, "keys", getattr(st.value, "elts", [])):
+            inits[st.targets[0].attr] = st
+    mutated = {path[0][1:] for (p, path) in eff.mutates(f_apply, None) if p == f_apply.self_name and path}
+    clear = cls.methods.get("clear")
+    cleared = {path[0][1:] for (p, path) in eff.mutates(clear, None) if p == clear.self_name and path} if clear else set()
+    state = sorted(a for a in inits if a in mutated and a not in cleared and a.startswith("_vectorization"))
+    if len(state) < 2:
+        raise AnalysisError(f"{rid}: expected the relabelling maps _vectorization_labels/_vectorization_indices as per-compilation "
+                            f"instance state of CircuitTemplate, found {state}")
+    cfg = ctx.cfg(f_apply)
+    for attr in state:
+        # the first statement of apply (in dominance order) whose effects touch self.<attr>
+        touching = []
+        for e in eff.events_of(f_apply, None):
+            o = e.origin
+            if o[0] == "P" and o[1] == f_apply.self_name and o[2] and o[2][0] == "." + attr:
+                if e.stmt not in touching:
+                    touching.append(e.stmt)
+        readers = [st for st in cfg.stmts() if any(isinstance(n, _ast.Attribute) and n.attr == attr for n in _ast.walk(st))
+                   and not isinstance(st, (_ast.If, _ast.For, _ast.While, _ast.Try, _ast.With))]
+        cand = [st for st in touching + readers if st in cfg.g]
+        first = [st for st in cand if all(cfg.dominates(st, o) or st is o for o in cand)]
+        if not first:
+            raise AnalysisError(f"{rid}: no single first use of self.{attr} in apply (dominance order)")
+        st0 = first[0]
+        # that statement must call a method in which self.<attr> is re-bound, on every path, to a container built locally,
+        # and which does not otherwise mutate self.<attr>
+        callee = None
+        for c in _ast.walk(st0):
+            if isinstance(c, _ast.Call):
+                ts, how = ctx.cg.resolve_call(f_apply, c)
+                for t in ts:
+                    if t.cls is not None and any(isinstance(x, _ast.Assign) and any(isinstance(tt, _ast.Attribute) and tt.attr == attr for tt in x.targets)
+                                                 for x in walk_shallow(t.node)):
+                        callee = t
+        facts = {"attribute": attr, "first_use_in_apply": norm(st0)}
+        if callee is None:
+            direct = isinstance(st0, _ast.Assign) and any(isinstance(tt, _ast.Attribute) and tt.attr == attr for tt in st0.targets)
+            if direct:
+                ctx.ok(rid, f_apply, st0, f"self.{attr} is re-bound at the start of every compilation", facts, label=f"self.{attr} is re-bound per compilation")
+            else:
+                ctx.violation(rid, f_apply, st0, f"the first use of self.{attr} in a compilation (`{norm(st0)}`) neither re-binds it nor calls a "
+                                                 f"method that does: the map still holds the node grouping of the previous compilation of this template object",
+                              facts, label=f"self.{attr} is re-bound per compilation")
+            continue
+        ccfg = ctx.cfg(callee)
+        an = _analyse(eff, callee, None)
+        rebinds = [x for x in ccfg.stmts() if isinstance(x, _ast.Assign) and any(isinstance(tt, _ast.Attribute) and tt.attr == attr
+                                                                                   and isinstance(tt.value, _ast.Name) and tt.value.id == callee.self_name
+                                                                                   for tt in x.targets)]
+        fresh = [x for x in rebinds if all(o[0] in ("F", "L") for o in an.origins(x.value)) and an.origins(x.value)]
+        on_all_paths = bool(fresh) and ccfg.must_pass(ccfg.ENTRY, lambda n: any(n is x for x in fresh)) is None
+        merges = [e for e in eff.events_of(callee, None) if e.origin[0] == "P" and e.origin[1] == callee.self_name
+                  and e.origin[2] and e.origin[2][0] == "." + attr and not isinstance(e.stmt, _ast.Assign)]
+        merges += [e for e in eff.events_of(callee, None) if e.origin[0] == "P" and e.origin[1] == callee.self_name
+                   and e.origin[2] and e.origin[2][0] == "." + attr and isinstance(e.stmt, _ast.Assign)
+                   and not any(isinstance(tt, _ast.Attribute) and tt.attr == attr for tt in e.stmt.targets)]
+        facts.update({"callee": callee.qualname, "rebinds": [norm(x) for x in rebinds], "merging_writes": [norm(e.stmt) for e in merges]})
+        if on_all_paths and not merges:
+            ctx.ok(rid, callee, fresh[0], f"every compilation re-binds self.{attr} to a container built in {callee.qualname}", facts,
+                   label=f"self.{attr} is re-bound per compilation")
+        else:
+            node = merges[0].stmt if merges else (rebinds[0] if rebinds else callee.node)
+            ctx.violation(rid, callee, node, f"{callee.qualname} (first user of self.{attr} in a compilation) does not replace it by a freshly built "
+                                             f"map on every path ({'merges into it: ' + norm(merges[0].stmt) if merges else 're-binding missing or not fresh'}): "
+                                             f"clear() does not reset this map, so entries of an earlier compilation with another node grouping survive "
+                                             f"and re-wire edges/outputs", facts, label=f"self.{attr} is re-bound per compilation")
+
+
 RULES = [
     ("C13-R1", r1_inventory, 25),
     ("C13-R2", r2_cache_keys, 5),
     ("C13-R3", r3_reset_before_use, 6),
     ("C13-R4", r4_registry_copies, 3),
+    ("C13-R5", r5_template_compile_state_rebound, 2),
 ]
